@@ -61,6 +61,10 @@ class RawOrigin:
         c.settimeout(20 * rig.VERIF_SLOW)
         try:
             while True:
+                if sid is None:      # attribute the connection to its scenario even when nothing on it can be parsed
+                    ms = re.search(rb"/c03/([A-Za-z0-9]{8})/", buf)
+                    if ms:
+                        sid = ms.group(1).decode()
                 # delimit as many complete requests as the buffer holds
                 while pos < len(buf):
                     r = ref_message(buf, pos)
